@@ -23,16 +23,16 @@ import (
 // simulated sources (select{abort | tick}; send block; close(nextBlock) on abort).
 type v10Source struct {
 	AnySource
-	mode       string // normal | errblock | close
-	nblocks    int    // blocks produced before the event / before idling
-	failStep   string // "", sample, prepare, startrun : which step of the first Start fails
-	starts     int
-	processed  int32
-	frame      int
-	tick       chan struct{}
-	procCh     chan struct{} // a token per processed block (never blocks the core loop)
-	writeDir   string // if set, writing is switched on inside StartRun (before the core loop exists)
-	behave     bool   // restart phase: the source runs normally
+	mode      string // normal | errblock | close
+	nblocks   int    // blocks produced before the event / before idling
+	failStep  string // "", sample, prepare, startrun : which step of the first Start fails
+	starts    int
+	processed int32
+	frame     int
+	tick      chan struct{}
+	procCh    chan struct{} // a token per processed block (never blocks the core loop)
+	writeDir  string        // if set, writing is switched on inside StartRun (before the core loop exists)
+	behave    bool          // restart phase: the source runs normally
 }
 
 func v10New(mode string, nblocks int, failStep string) *v10Source {
